@@ -916,4 +916,55 @@ Proof.
               ltac:(apply (K_same RC OC P sf w); [reflexivity|reflexivity|exact Kw]) Jf Ff S0 DA DB) as [E S1].
   split; [exact E|]. intros r. apply (sim_content _ _ S1).
 Qed.
+
+(* ---- C02, last clause: the incremental session executes no task that the from-scratch session does not execute ---- *)
+Lemma session_post f ops : forall w, td_only ops -> J w -> Forall is_done (fst (run_session RC OC P always f w ops)) ->
+  exists seg, Post [] [] [] w (snd (run_session RC OC P always f w ops)) seg.
+Proof.
+  induction ops as [|o tl IH]; intros w TD Jw DA; cbn [run_session] in *.
+  - exists []. apply post_refl. apply Jw.
+  - destruct o as [t|ch]; [|destruct TD]. cbn [td_only] in TD. cbn [run_sop] in *.
+    pose proof (session_require_spec RC OC P always f w t (proj1 Jw) (proj2 Jw)) as SP.
+    destruct (session_require RC OC P always f w t) as [x w1|k w1|]; cbn [fst snd okP] in *.
+    + destruct SP as [[s1 P1] _].
+      specialize (IH w1 TD (conj (po_ok _ _ _ _ _ _ P1) (po_inv _ _ _ _ _ _ P1 (proj2 Jw)))).
+      destruct (run_session RC OC P always f w1 tl) as [rs w2]. cbn [fst snd] in *.
+      inversion DA; subst. destruct (IH ltac:(assumption)) as [s2 P2]. exists (s1 ++ s2). eapply post_seq; eassumption.
+    + inversion DA as [|r0 l0 [x X] _]; discriminate.
+    + inversion DA as [|r0 l0 [x X] _]; discriminate.
+Qed.
+
+Lemma fresh_cons_exec S w w' seg : Post S [] [] w w' seg -> FreshW w ->
+  forall x, memN x (consistent w') = true -> memN x (consistent w) = true \/ In x (execs seg).
+Proof.
+  intros P1 F x X. destruct (po_newcons _ _ _ _ _ _ P1 x X) as [Y|[Y|Y]]; [left; exact Y|right; exact Y|].
+  destruct (memN x (consistent w)) eqn:Z; [left; reflexivity|]. exfalso. apply Y. apply F. exact Z.
+Qed.
+
+Theorem incremental_executes_subset fuel fuel0 h ops :
+  td_hist h -> td_only ops ->
+  let w := snd (run_history RC OC P always fuel init_world h) in
+  let ra := run_session RC OC P always fuel (new_session w) ops in
+  let rb := run_session RC OC P always fuel0 (new_session (fresh_of w)) ops in
+  ~ Exists (Exists bug4) (fst (run_history RC OC P always fuel init_world h)) ->
+  Forall is_done (fst ra) -> Forall is_done (fst rb) ->
+  forall x, In x (execs (rev (trace (snd ra)))) -> In x (execs (rev (trace (snd rb)))).
+Proof.
+  intros TH TO w ra rb NB DA DB x Hx.
+  destruct (history_td_JK RC OC P sf HS HNR always fuel h init_world TH J_init (K_init RC OC P sf)) as [X|[Jw Kw]]; [contradiction|]. fold w in Jw, Kw.
+  assert (Jf : J (new_session (fresh_of w))) by (split; [exact GOK_empty|split; [intros t d X; discriminate|intros t X; discriminate]]).
+  assert (Ff : FreshW (new_session (fresh_of w))) by (intros y _; reflexivity).
+  assert (S0 : Sim (new_session w) (new_session (fresh_of w))).
+  { constructor; [reflexivity|reflexivity|reflexivity|intros y Y; discriminate]. }
+  destruct (sim_session fuel fuel0 ops (new_session w) (new_session (fresh_of w)) TO (J_new_session w Jw)
+              ltac:(apply (K_same RC OC P sf w); [reflexivity|reflexivity|exact Kw]) Jf Ff S0 DA DB) as [_ S1].
+  destruct (session_post fuel ops (new_session w) TO (J_new_session w Jw) DA) as [sa PA].
+  destruct (session_post fuel0 ops (new_session (fresh_of w)) TO Jf DB) as [sb PB].
+  fold ra in PA, S1. fold rb in PB, S1.
+  rewrite (po_seg _ _ _ _ _ _ PA) in Hx. cbn [new_session trace] in Hx. rewrite app_nil_r, rev_involutive in Hx.
+  rewrite (po_seg _ _ _ _ _ _ PB). cbn [new_session trace]. rewrite app_nil_r, rev_involutive.
+  destruct (po_cons _ _ _ _ _ _ PA x Hx) as [C|[]].
+  rewrite (sim_cons _ _ S1 x) in C.
+  destruct (fresh_cons_exec [] _ _ sb PB Ff x C) as [Y|Y]; [discriminate Y|exact Y].
+Qed.
 End Sm.
